@@ -764,40 +764,3 @@ func filterKeyPrefix(c *core.Ctx, filterKey *core.Fn, cpk *types.Const) {
 		c.Undecidedf("R4.filter", "FilterKey/prefix-before-pass", filterKey.Decl.Pos(), "FilterKey never lets a key pass")
 	}
 }
-
-// seedExpr: e is "<prefix>-": fmt.Sprintf("%s-", prefix), prefix + "-",
-// append([]byte(prefix), '-'), or a local holding one of these.
-func seedExpr(info *types.Info, body ast.Node, prefix types.Object, e ast.Expr, depth int) bool {
-	e = strip(info, e)
-	if depth > 3 {
-		return false
-	}
-	switch x := e.(type) {
-	case *ast.CallExpr:
-		if core.IsFunc(core.CalleeFunc(info, x), "fmt", "", "Sprintf") && len(x.Args) == 2 {
-			f, _ := core.StringConst(info, x.Args[0])
-			return f == "%s-" && objOf(info, x.Args[1]) == prefix
-		}
-		// append([]byte(prefix), '-')
-		if b, isB := core.Callee(info, x).(*types.Builtin); isB && b.Name() == "append" && len(x.Args) == 2 && !x.Ellipsis.IsValid() {
-			sep, isC := core.IntConst(info, x.Args[1])
-			return isC && sep == '-' && objOf(info, strip(info, x.Args[0])) == prefix
-		}
-	case *ast.BinaryExpr:
-		sep, isC := core.StringConst(info, x.Y)
-		return x.Op == token.ADD && isC && sep == "-" && objOf(info, strip(info, x.X)) == prefix
-	case *ast.Ident:
-		rhs, other := defsOf(info, body, objOf(info, x))
-		n := 0
-		for _, r := range rhs {
-			if r != nil {
-				n++
-				if !seedExpr(info, body, prefix, r, depth+1) {
-					return false
-				}
-			}
-		}
-		return n == 1 && other == 0
-	}
-	return false
-}
